@@ -6,7 +6,8 @@ from ..apigen import File
 RULE = ("micro APIs over a grid: (response-type form) x (metadata-type form) with forms {relative | fully-qualified} x "
         "{same file | other file imported by the service's file | other file NOT imported, listed before or after the service's file}, "
         "google.protobuf.Empty (imported by the service's file or only by another file), nested (qualified, package-relative, and "
-        "package-relative while a top-level package of the same name exists), "
+        "package-relative while a top-level package of the same name exists, package-relative with the enclosing message in "
+        "another file, imported or not), flattened request fields named like the api_core modules (operation, operation_async), "
         "another package, missing, unknown (relative, qualified, leading dot), plus un-annotated Operation methods, three packages. "
         "Schema level: every sampled grid cell is decided by the real API.build and by the model (T2). End to end: a slice of the "
         "cells is generated, the emitted from_gapic arguments and operations-client properties are read with ast (T1), and the "
@@ -35,12 +36,16 @@ OPERATION = ".google.longrunning.Operation"
 GET_OP = "/google.longrunning.Operations/GetOperation"
 
 VALID = ["rel_same", "fq_same", "rel_imported", "fq_imported", "rel_notimported", "fq_notimported", "empty", "empty_elsewhere",
-         "fq_nested", "fq_otherpkg", "rel_nested"]
+         "fq_nested", "fq_otherpkg", "rel_nested", "rel_nested_imported", "rel_nested_notimported"]
 GEN_ONLY = ["rel_nested_shadowed"]   # both readings of the dotted name exist: decision compared model-vs-code only
-QUIRK = ["rel_nested"]               # former finding lro.nested_relative_type (fixed): a regression carries that signature
+QUIRK = ["rel_nested", "rel_nested_imported", "rel_nested_notimported"]               # former finding lro.nested_relative_type (fixed): a regression carries that signature
 MISSING = ["missing"]
 UNKNOWN = ["unknown_rel", "unknown_fq", "leading_dot", "rel_empty"]
 ALL_KINDS = VALID + GEN_ONLY + QUIRK + MISSING + UNKNOWN
+
+
+# flattened request fields named like the api_core modules the emitted client imports
+FLAT = {"operation": ["operation"], "operation_async": ["operation_async"], "both": ["operation", "operation_async"]}
 
 
 def annotation(kind, pkg, S):
@@ -50,6 +55,8 @@ def annotation(kind, pkg, S):
         "rel_notimported": f"Other{S}", "fq_notimported": f"{pkg}.Other{S}",
         "empty": "google.protobuf.Empty", "empty_elsewhere": "google.protobuf.Empty",
         "fq_nested": f"{pkg}.Outer.Inner{S}", "rel_nested": f"Outer.Inner{S}", "rel_nested_shadowed": f"Outer.Inner{S}",
+        # nested, package-relative, the enclosing message in ANOTHER file than the service (imported / not imported)
+        "rel_nested_imported": f"ImpOuter.Inner{S}", "rel_nested_notimported": f"OtherOuter.Inner{S}",
         "fq_otherpkg": f"{SHARED_PKG}.Shared{S}",
         "missing": "", "unknown_rel": f"Nope{S}", "unknown_fq": f"google.example.nowhere.Thing{S}",
         "leading_dot": f".{pkg}.Local{S}", "rel_empty": "Empty",
@@ -73,10 +80,11 @@ def build_api(cell):
             else:
                 m.field("pct", 1, "int32").field("stage", 2, "string")
         shared.message("Shared" + S).field("text", 1, "string")
-    outer = svc.message("Outer")
-    outer.field("x", 1, "string")
-    outer.nested("InnerResp").field("v", 1, "string")
-    outer.nested("InnerMeta").field("v", 1, "string")
+    for f, nm in ((svc, "Outer"), (more, "ImpOuter"), (types, "OtherOuter")):
+        outer = f.message(nm)
+        outer.field("x", 1, "string")
+        outer.nested("InnerResp").field("v", 1, "string")
+        outer.nested("InnerMeta").field("v", 1, "string")
     svc.dep(more.proto.name)
     if "empty" in kinds or cell.get("raw_sibling"):
         svc.dep("google/protobuf/empty.proto")
@@ -85,9 +93,12 @@ def build_api(cell):
         types.message("Holder").field("e", 1, ".google.protobuf.Empty")
     rq = svc.message("StartRequest")
     rq.field("name", 1, "string")
+    flat = FLAT.get(cell.get("flat"), [])
+    for i, fname in enumerate(flat):
+        rq.field(fname, 2 + i, "string")
     s = svc.service("Jobs", host="jobs.example.com")
     lro = (annotation(cell["resp"], pkg, "Resp"), annotation(cell["meta"], pkg, "Meta")) if cell["annotated"] else None
-    s.rpc("Start", rq.fqn, OPERATION, http=("post", "/v1/{name=jobs/*}:start"), body="*", lro=lro, sigs=["name"])
+    s.rpc("Start", rq.fqn, OPERATION, http=("post", "/v1/{name=jobs/*}:start"), body="*", lro=lro, sigs=[",".join(["name"] + flat)])
     s.rpc("Peek", rq.fqn, ".%s.LocalResp" % pkg, http=("get", "/v1/{name=jobs/*}:peek"))
     if cell.get("raw_sibling"):
         s.rpc("Kick", rq.fqn, OPERATION, http=("post", "/v1/{name=jobs/*}:kick"), body="*")
@@ -336,7 +347,8 @@ def extract_wrapping(src, method, files, req=None):
         "module": (imports.get(_dotted(c.func)[0]) or "<not imported>").rsplit(".", 1)[-1], "func": c.func.attr, "first": c.args[0].id, "client": ast.unparse(c.args[1]),
         "result_type": proto_name_of(c.args[2], imports, files, req), "kw": c.keywords[0].arg,
         "metadata_type": proto_name_of(c.keywords[0].value, imports, files, req),
-        "module_import": imports.get(_dotted(c.func)[0])}}
+        "module_import": imports.get(_dotted(c.func)[0]), "module_name": _dotted(c.func)[0],
+        "params": [a.arg for a in fn.args.args + fn.args.kwonlyargs]}}
 
 
 def extract_ops_client(src, cls_suffix):
@@ -669,6 +681,8 @@ def e2e_case(args):
                               f"Some (ReturnsFuture w) => wrapping_eqb w {term} | _ => false end"))
             want_mod = "google.api_core.operation_async" if is_async else "google.api_core.operation"
             res["oblige"].append((f"T1 {fname}: the from_gapic module is {want_mod}", ww["module_import"] == want_mod, str(ww["module_import"])))
+            res["oblige"].append((f"T1 {fname}: the name the from_gapic module is called by (alias included) is not a parameter of the method",
+                                  ww["module_name"] not in ww["params"], f"{ww['module_name']} in {ww['params']}"))
     has_future = got is not None and got[0] == "lro"
     for fname, suffix, is_async in (("transports/grpc.py", "GrpcTransport", False), ("transports/grpc_asyncio.py", "GrpcAsyncIOTransport", True)):
         try:
@@ -725,8 +739,15 @@ def e2e_case(args):
                     # the server speaks the API as declared: it packs the annotated types, whatever the emitted code expects
                     declared = (exp[1], exp[2]) if exp[0] == "future" else (got[1], got[2])
                     ops, view = snapshots(d, declared[0], declared[1], h)
+                    flat_names = FLAT.get(cell.get("flat"), [])
+                    rmode = {"mode": "message", "cls": f"{pypkg}:StartRequest", "b64": d.b64(rq)}
+                    if flat_names and h is hs[0]:
+                        rqf = d.new(pkg + ".StartRequest", name="jobs/1")
+                        for fnm in flat_names:
+                            setattr(rqf, fnm, "x-" + fnm)
+                        rmode = {"mode": "kwargs", "cls": f"{pypkg}:StartRequest", "b64": d.b64(rqf), "kwargs": ["name"] + flat_names}
                     spec = {"service_module": "jobs", "client": cn, "transport": tr, "method": "start",
-                            "request": {"mode": "message", "cls": f"{pypkg}:StartRequest", "b64": d.b64(rq)}, "consume": "lro",
+                            "request": rmode, "consume": "lro",
                             "grpc_script": {f"/{pkg}.Jobs/Start": [{"messages": [d.b64(ops[0])]}],
                                             GET_OP: [{"messages": [d.b64(o)]} for o in ops[1:]]},
                             "http_script": [{"status": 200, "body": json_format.MessageToJson(o, descriptor_pool=d.pool)} for o in ops]}
@@ -859,6 +880,8 @@ def e2e_cells(ctx, n):
         {"pkg_index": 2, "resp": "unknown_rel", "meta": "rel_same", "annotated": True, "order": "types-first"},
         {"pkg_index": 0, "resp": "rel_notimported", "meta": "fq_notimported", "annotated": True, "order": "svc-first", "types_name": "operation"},
         {"pkg_index": 1, "resp": "missing", "meta": "missing", "annotated": True, "order": "svc-first"},
+        {"pkg_index": 2, "resp": "rel_notimported", "meta": "rel_same", "annotated": True, "order": "svc-first", "flat": "operation"},
+        {"pkg_index": 0, "resp": "empty", "meta": "rel_nested_imported", "annotated": True, "order": "types-first", "flat": "operation_async"},
     ]
     i = 0
     while len(cells) < n:
@@ -868,6 +891,8 @@ def e2e_cells(ctx, n):
         c = {"pkg_index": r.randrange(len(PACKAGES)), "resp": r.choice(pool), "meta": r.choice(pool),
              "annotated": r.random() < 0.88, "order": r.choice(["types-first", "svc-first"]), "raw_sibling": r.random() < 0.25,
              "types_name": r.choice(["types", "types", "operation", "operation_async"]), "ops_http": r.random() < 0.3}
+        if r.random() < 0.3:
+            c["flat"] = r.choice(["operation", "operation_async", "both"])
         if c not in cells:
             cells.append(c)
     out = []
@@ -910,7 +935,7 @@ def run_e2e(ctx, cells, tier_all, full=True):
 
 def run(ctx):
     run_schema(ctx, grid(ctx, ctx.n(70, 700)))
-    run_e2e(ctx, e2e_cells(ctx, ctx.n(14, 90)), tier_all=not ctx.quick())
+    run_e2e(ctx, e2e_cells(ctx, ctx.n(19, 100)), tier_all=not ctx.quick())
 
 
 def search(ctx, broken):
